@@ -571,7 +571,8 @@ def get_sort(node):
         sort = _get_sort_aux(node)
     except Exception as e:
         # ill-formed term (wrong arity, non-numeral index, ...)
-        logging.debug(f'can not infer sort of "{node}": {type(e)}: {e}')
+        # (do not render the term here: it may be nested too deeply)
+        logging.debug(f'can not infer sort of a term: {type(e)}: {e}')
         sort = None
     __get_sort_cache[node.id] = sort
     __get_sort_cache[node] = sort
